@@ -656,6 +656,9 @@ func (lb *LoadBalancer) handleRequest(w http.ResponseWriter, r *http.Request, st
 	if backend == nil {
 		logging.WithContext(r.Context()).Warn().Str("path", r.URL.Path).Msg("no healthy backend available")
 		http.Error(w, "No healthy backend servers available", http.StatusServiceUnavailable)
+		// the request was answered with an error: count it, so that
+		// successful + failed + rate-limited keeps adding up to total
+		lb.metricsCollector.RecordResponse(false, time.Since(startTime))
 		return nil
 	}
 
